@@ -47,6 +47,8 @@ pub struct StreamCfg {
     pub min_vertices: usize,
     pub max_vertices: usize,
     pub block: u64,
+    /// remove duplicate start vertices from entry lists (C03 attributes rows to start vertices)
+    pub dedup_entries: bool,
     pub cfg_for_block: Box<dyn Fn(u64) -> GenCfg>,
 }
 
@@ -58,6 +60,7 @@ impl StreamCfg {
             min_vertices: 6,
             max_vertices: 12,
             block: 25,
+            dedup_entries: false,
             cfg_for_block: Box::new(GenCfg::rotated),
         }
     }
@@ -137,7 +140,14 @@ pub fn run_stream(
             }
         };
         let n = rng.range(scfg.min_vertices, scfg.max_vertices);
-        let ds = Rc::new(random_dataset(&mut rng, &model, n));
+        let mut ds0 = random_dataset(&mut rng, &model, n);
+        if scfg.dedup_entries {
+            for adj in ds0.entry.values_mut() {
+                let mut seen = std::collections::BTreeSet::new();
+                adj.retain(|x| seen.insert(*x));
+            }
+        }
+        let ds = Rc::new(ds0);
         for _ in 0..scfg.block {
             if produced >= scfg.cases {
                 break;
